@@ -289,21 +289,23 @@ def binScalar (op : BinOp) (l r : Value N) : OpRes N :=
     else if (r.isNumber || l.isNumber) && r.isNumber then                                              -- :382 (sic: only rhs is checked)
       if Num.eq r.toDouble (nzero : N) then .err (.script .divzero "Right-hand side argument for operator % is 0.")
       else
-        -- `static_cast<int>(lhs)`: goes through `operator double()`, which lexical_casts strings and objects
-        match l with
-        | .num _ | .bool _ | .empty =>
-          match Num.toInt32 l.toDouble, Num.toInt32 r.toDouble with
-          | some a, some b =>
-            match intOp .mod a b with
-            | some c => .val (.num (Num.ofInt c))
-            | none => .err (.unmodelled "int %")
-          | _, _ => .err (.unmodelled "static_cast<int> %")
-        | .str s => if s == "" then
-            (match Num.toInt32 r.toDouble with
-             | some b => (match intOp .mod 0 b with | some c => .val (.num (Num.ofInt c)) | none => .err (.unmodelled "int %"))
-             | none => .err (.unmodelled "static_cast<int> %"))
-          else .err (.unmodelled "lexical_cast<double>(string) %")
-        | _ => .err (.unmodelled "lexical_cast<double>(object) %")
+        match Num.toInt32 r.toDouble with                                     -- `int divisor = static_cast<int>(rhs)`
+        | none => .err (.unmodelled "static_cast<int> %")
+        | some b =>
+          -- the operands are truncated to integers: 0.5 becomes 0 as well (09db53a)
+          if b == 0 then .err (.script .divzero "Right-hand side argument for operator % is 0.")
+          -- INT_MIN % -1 overflows; the remainder is 0 for every left-hand side, which is not even converted (09db53a)
+          else if b == -1 then .val (.num (Num.ofInt 0))
+          else
+            -- `static_cast<int>(lhs)`: goes through `operator double()`, which lexical_casts strings and objects
+            match l with
+            | .num _ | .bool _ | .empty =>
+              match Num.toInt32 l.toDouble with
+              | some a => .val (.num (Num.ofInt (Int.tmod a b)))
+              | none => .err (.unmodelled "static_cast<int> %")
+            | .str s => if s == "" then .val (.num (Num.ofInt 0))
+              else .err (.unmodelled "lexical_cast<double>(string) %")
+            | _ => .err (.unmodelled "lexical_cast<double>(object) %")
     else .err (opTypeErr "%" l r)
   | .xor => intBin "&" .xor l r      -- :416 (sic: the message of ^ says '&')
   | .band => intBin "&" .band l r
